@@ -111,7 +111,11 @@ def run_real(mode, inp, cl, buf, max_body, schedule=None, rng=None, kind='cl', e
         env['HTTP_TRANSFER_ENCODING'] = 'chunked'
         if cl >= 0:     # a (bogus) Content-Length next to chunked framing: the framing decides
             env['CONTENT_LENGTH'] = str(cl)
-    status, line, headers, body, nsr = call_app(app, env)
+    try:
+        with core.time_limit(10):
+            status, line, headers, body, nsr = call_app(app, env)
+    except core.Hang:
+        status = 0      # reported as outcome 'status0' (neither accepted nor a client error)
     phase = {200: 'done', 400: 'e400', 413: 'e413'}.get(status, 'status%d' % status)
     if phase == 'done' and 'out' not in res:
         phase = 'nobody'
